@@ -45,7 +45,7 @@ func (sr *srcRenderer) kvName(n string) string {
 var rangeColl = map[string][2]string{ // kind -> variable, type
 	"slice": {"s", "[]int"}, "array": {"arr", "[3]int"}, "string": {"str", "string"}, "int": {"n", "int"}, "chan": {"ch", "chan int"},
 	"int0": {"n0", "int"}, "map1": {"m1", "map[int]int"},
-	"intc": {"3", "int64"}, // an untyped constant operand with an int64 iteration variable (`=` form only)
+	"intc": {"3", "int64"},      // an untyped constant operand with an int64 iteration variable (`=` form only)
 	"iter": {"it", "Iter[int]"}, // the local iterator it := D2(r, 3, b): a generator ranging over an iterator
 }
 
